@@ -15,6 +15,7 @@ PLUGINS = {
     "C04": "harness.plug_load:C04",
     "C05": "harness.plug_mutate:C05",
     "C09": "harness.plug_derive:C09",
+    "C10": "harness.plug_derive:C10",
     "C11": "harness.plug_derive:C11",
     "C12": "harness.plug_derive:C12",
     "C13": "harness.plug_load:C13",
